@@ -14,19 +14,21 @@ import common
 
 ID = "C01"
 MANIFEST = dict(
-    technique="Coq proof (Rc copy-on-write heap machine refines the value-semantics spec, for every statement list) + "
-              "history correspondence implementation vs extracted spec after every statement",
+    technique="Coq proof (Rc copy-on-write heap machine refines the value-semantics spec, for every statement list of the proved "
+              "fragment) + history correspondence implementation vs extracted spec after every statement",
     text="Machine-checked theorems (Coq 8.16, no axioms) about a Gallina model of the Rc ownership discipline of eval.rs/core.rs/lib.rs "
-         "(heap of cells with explicit strong counts; clone_handle, drop_handle, make_mut, in-place write; set_index, modify_existing_index, "
-         "op-assign with drop_lhs, consuming builtins): the count/handle invariant is preserved by every statement list and the machine "
-         "refines the pure-tree value semantics Rc/ValueSem.v after every prefix (values of all variables and raised/not-raised), with the "
-         "corollaries alias_unaffected, call_leaves_argument, closure_sees_variable_not_value. The spec is tied to /repo on every run by "
-         "random and exhaustive-short histories over aliased lists, dicts (with/without default), strings, vectors, bytes and struct "
-         "instances, compared after every statement.",
-    note="Trusted: Coq kernel; hand-written machine Rc/Cow.v and spec Rc/ValueSem.v (tie to the code is the correspondence run, i.e. "
-         "differential testing on generated histories, plus the Rc-graph isomorphism check of C02); extraction + OCaml runner; Rust harness; "
-         "Python generator/renderer. See notes/C01.md for the exact statement fragment each theorem covers; statement forms outside the "
-         "proved fragment, and builtins other than the consuming ones, are covered by correspondence only.",
+         "(heap of cells with explicit strong counts; clone, recursive drop, make_mut, in-place write; set_index, modify_existing_index, "
+         "op-assign with drop_lhs, consuming builtins, update expressions, calls that mutate their parameter): the count/handle invariant "
+         "is preserved and the machine refines the pure-tree value semantics Rc/ValueSem.v after every prefix of every statement list "
+         "(values of all variables and raised/not-raised), for arbitrary nesting, arbitrary non-slice index paths and all payload kinds, "
+         "with the corollaries alias_unaffected, call_leaves_argument, closure_sees_variable_not_value. The spec is tied to /repo on "
+         "every run by random and exhaustive-short histories over aliased lists, dicts (with/without default), strings, vectors, bytes "
+         "and struct instances, compared after every statement; the machine is tied to /repo by C02's Rc-graph comparison.",
+    note="Theorems cover the fragment `frag` (slot assignment, op-assign with append/++/+/|./-., pop/remove/consume, update expressions, "
+         "mutating calls, getter closures; no slices in write paths): `every` slice assignment, swap, for-loops and the builtins || and "
+         "|.. are NOT covered by the theorems, only by the correspondence (notes/C01.md). Trusted: Coq kernel; hand-written machine "
+         "Rc/Cow.v and spec Rc/ValueSem.v (tie to the code is differential testing on generated histories + C02's graph isomorphism); "
+         "extraction + OCaml runner; Rust harness; Python generator/renderer. Builtins other than the consuming ones are outside the model.",
     design="6-C01")
 
 NSTRUCT = {0: 2, 1: 3}          # struct id -> number of fields
@@ -973,8 +975,34 @@ def exhaustive_histories(maxlen):
 
 
 # ----------------------------------------------------------------------------- run
-def compare_batch(ctx, spec, hists, stats, label):
+def cow_events(machine_runner, hists):
+    """per history: number of statements during which the Coq machine's make_mut found a shared cell (copied grew) -
+    i.e. a mutation executed while an alias of the mutated cell was live"""
+    if not machine_runner or not hists:
+        return [None] * len(hists)
+    out = []
+    lines = common.run_model(machine_runner, [sx_hist(n, s) for (n, s, w) in hists])
+    for line in lines:
+        try:
+            tr = json.loads(line)
+            prev, ev = 0, 0
+            for st in tr:
+                if st["copied"] > prev:
+                    ev += 1
+                prev = st["copied"]
+            out.append(ev)
+        except Exception:
+            out.append(None)
+    return out
+
+
+def compare_batch(ctx, spec, hists, stats, label, machine_runner=None):
     impl = run_impl(hists)
+    cows = cow_events(machine_runner, hists)
+    for c in cows:
+        if c:
+            stats["cow_histories"] += 1
+            stats["cow_events"] += c
     for h, im in zip(hists, impl):
         n, s, w = h
         sp = spec.run(n, s)
@@ -1012,12 +1040,16 @@ def compare_batch(ctx, spec, hists, stats, label):
 
 def run(ctx):
     runner = common.standard_prelude(ctx)
-    stats = {"histories": 0, "statements": 0, "raised": 0, "forms": {}, "aliased_mutations": 0, "nontrivial": 0, "diffs": 0}
+    stats = {"histories": 0, "statements": 0, "raised": 0, "forms": {}, "aliased_mutations": 0, "nontrivial": 0, "diffs": 0,
+             "cow_histories": 0, "cow_events": 0}
     samples = []
+    okm, machine = common.build_model("C02")
+    if not okm:
+        machine = None
     if runner:
         spec = Spec(runner)
         try:
-            compare_batch(ctx, spec, corpus_histories(), stats, "corpus")
+            compare_batch(ctx, spec, corpus_histories(), stats, "corpus", machine)
             nh = ctx.n(400, 20000)
             batch = []
             for i in range(nh):
@@ -1026,22 +1058,25 @@ def run(ctx):
                 if len(samples) < 6 and i % 50 == 0:
                     samples.append({"program": render_history(*h)[len(prelude(h[0])):][:12]})
                 if len(batch) >= 400:
-                    compare_batch(ctx, spec, batch, stats, "random")
+                    compare_batch(ctx, spec, batch, stats, "random", machine)
                     batch = []
-            compare_batch(ctx, spec, batch, stats, "random")
+            compare_batch(ctx, spec, batch, stats, "random", machine)
             ex = exhaustive_histories(ctx.n(2, 4))
             for i in range(0, len(ex), 2000):
-                compare_batch(ctx, spec, ex[i:i + 2000], stats, "exhaustive")
+                compare_batch(ctx, spec, ex[i:i + 2000], stats, "exhaustive", machine)
             stats["exhaustive_histories"] = len(ex)
         finally:
             spec.close()
     ctx.coverage.update({
-        "evaluations": stats["statements"], "distinct_nontrivial": stats["nontrivial"],
+        "evaluations": stats["statements"],
+        "distinct_nontrivial": stats["cow_histories"] if machine else stats["nontrivial"],
         "rule": "evaluations = statements executed and compared (all variables + raised/not-raised after each); distinct_nontrivial = "
-                "histories containing >= 1 successful, state-changing mutation statement (slot/every/op-assign, pop/remove/consume, swap, for) "
-                "executed while the mutated variable held a non-empty container structurally equal to a container elsewhere in the state "
-                "(another variable, or twice inside itself) - equal containers arise from copies, so this is the proxy for 'an alias of the "
-                "mutated cell was live'",
+                "histories in which, according to the Coq Rc machine run on the same history, at least one statement mutated through a "
+                "cell whose strong count was > 1 (make_mut copied: an alias of the mutated cell was live) - the machine's counts are "
+                "checked against the real Rc graph by C02. Secondary proxy (histories_with_equal_container_mutated): a successful "
+                "state-changing mutation executed while the mutated variable held a non-empty container structurally equal to one "
+                "elsewhere in the state",
+        "copy_on_write_statements": stats["cow_events"], "histories_with_equal_container_mutated": stats["nontrivial"],
         "samples": samples, "histories": stats["histories"], "raised_statements": stats["raised"],
         "statement_forms": stats["forms"], "aliased_mutation_statements": stats["aliased_mutations"],
         "exhaustive_histories": stats.get("exhaustive_histories", 0), "differences": stats["diffs"],
